@@ -105,7 +105,7 @@ static int op_unfill(void)
 }
 static int nops(void)
 {
-	return op_unfill() + (NFILL_LEVELS ? 1 : 0);
+	return op_unfill();
 }
 
 static void op_str(int op, struct vbuf *out)
@@ -120,10 +120,8 @@ static void op_str(int op, struct vbuf *out)
 		vb_printf(out, "src_remove src%c", 'A' + (op - op_src0()));
 	} else if (op < op_fill0()) {
 		vb_printf(out, "reload(copy-except src%c, swap, notify-diff)", 'A' + (op - op_reload0()));
-	} else if (op < op_unfill()) {
-		vb_printf(out, "fill to %d filler keys", FILL_LEVELS[op - op_fill0()]);
 	} else {
-		vb_puts(out, "remove all filler keys");
+		vb_printf(out, "set the number of filler keys to %d (add / remove the newest)", FILL_LEVELS[op - op_fill0()]);
 	}
 }
 
@@ -207,7 +205,8 @@ static void sys_apply(void *p, int op, bool check, const struct seqx_hist *h)
 		k_src_remove(&s->model, src);
 		if (src == 2)
 			s->fill = 0;
-	} else if (op < op_unfill()) {
+	} else {
+		/* bring the number of filler keys to the level: grows, shrinks, and turns around in the middle of a resize */
 		int target = FILL_LEVELS[op - op_fill0()];
 
 		for (int i = s->fill; i < target; i++) {
@@ -222,10 +221,7 @@ static void sys_apply(void *p, int op, bool check, const struct seqx_hist *h)
 				report(h, key, "adding a new filler key did not succeed");
 			}
 		}
-		if (target > s->fill)
-			s->fill = target;
-	} else {
-		for (int i = s->fill - 1; i >= 0; i--) {
+		for (int i = s->fill - 1; i >= target; i--) {
 			struct spki_record sr;
 			int rc;
 
@@ -237,7 +233,7 @@ static void sys_apply(void *p, int op, bool check, const struct seqx_hist *h)
 				report(h, key, "removing a present filler key did not succeed");
 			}
 		}
-		s->fill = 0;
+		s->fill = target;
 	}
 	CUR = NULL;
 }
@@ -341,7 +337,7 @@ static void sys_check_state(void *p, const struct seqx_hist *h)
 			}
 		}
 	/* every filler key must be found under its own AS */
-	for (int i = 0; i < s->fill; i += (s->fill > 8 ? s->fill / 8 : 1)) {
+	for (int i = 0; i < s->fill; i++) {
 		struct spki_record *res = NULL;
 		unsigned int n = 0;
 
